@@ -456,6 +456,10 @@ def rand_double_bits(rng):
 
 TEXTS_OK = [b"1.50", b"1.0", b"0.10", b"-0.0", b"1E5", b"1e5", b"1e+5", b"1E-5", b"1.5e+20", b"100.00", b"0.5", b"5e-1", b"-1.25E+2", b"0e0", b"0.0e-0", b"1.7976931348623157e308",
             b"4.9e-324", b"123456789012345678901234567890.5", b"0.1000000000000000055511151231257827", b"1.0e0", b"2.50e2", b"12.5e-1"]
+# long retained texts: the serializer copies the text through whatever intermediate buffers it uses - lengths around 32,
+# 64, 128, 256, 512 (stack buffers, initial print buffer sizes)
+TEXTS_OK += [b"1." + b"5" * (n - 2) for n in (30, 31, 32, 33, 62, 63, 64, 65, 126, 127, 128, 129, 130, 255, 256, 257, 511, 512, 513)]
+TEXTS_OK += [b"0." + b"0" * (n - 6) + b"1e-5" for n in (127, 128, 129)]
 TEXTS_BAD = [b"abc", b"1,5", b"", b"01.5", b"1e", b".5", b"NaN", b"1.5\x1b[0m", b"100", b"-7", b"1.5 ", b"+1.5", b"1.", b"Infinity", b"1.5e+", b"0x10", b"1.5\n", b"[1.5]"]
 
 
